@@ -91,6 +91,35 @@ def plens(tier):
     return [B, 2 * B, 4 * B] + ([8 * B, 16 * B] if tier == "thorough" else [])
 
 
+def hasher1_universe(cfg, clauses, rng, limit=None, aligns=(False, True)):
+    """The universe of MC_HasherV1*.cfg (all size vectors) as cases for the real v1 Hasher."""
+    import itertools
+    from .e3 import cfg_constants
+    k = cfg_constants(cfg)
+    out = []
+    for P in k["PieceLens"]:
+        for n in range(1, k["MaxFiles"] + 1):
+            for sizes in itertools.product(range(k["MaxSize"] + 1), repeat=n):
+                if sum(sizes) == 0:
+                    continue
+                for al in aligns:
+                    out.append({"op": "hasher1", "sizes": list(sizes), "P": P, "align": al, "clauses": clauses,
+                                "group": "none"})
+    if limit and len(out) > limit:
+        out = rng.sample(out, limit)
+    return out
+
+
+def hashers_scaled(clauses, tier):
+    """The universe of MC_HasherV2.cfg (B = 2): every size 1 .. MaxPieces*P+1 for P/B in {1,2,4,8}."""
+    out = []
+    top = 24 if tier == "thorough" else 10
+    for P in (2, 4, 8, 16):
+        for size in range(1, top * P + 2):
+            out.append({"op": "hashers", "size": size, "P": P, "block": 2, "group": "none", "clauses": clauses})
+    return out
+
+
 class CreateProp(Prop):
     engine = "E1-create-hashers"
     runner = staticmethod(create.run_any)
@@ -146,8 +175,10 @@ class CreateProp(Prop):
         return out
 
     def nontrivial(self, case):
+        if case.get("op") == "hasher1":
+            return ("h1", tuple(case["sizes"]), case["P"], case["align"])
         if case.get("op") == "hashers":
-            return ("h", case["size"], case["P"])
+            return ("h", case["size"], case["P"], case.get("block"))
         t = case["tree"]
         sizes = tuple(f["size"] for f in t["files"])
         P = case["P"]
@@ -161,8 +192,11 @@ class CreateProp(Prop):
         return "%s/%s" % (clause, single)
 
     def sample(self, case, rec):
+        if case.get("op") == "hasher1":
+            return {"op": "hasher1 (scaled world)", "sizes": case["sizes"], "P": case["P"], "align": case["align"],
+                    "pieces": rec.get("pieces") if rec else None}
         if case.get("op") == "hashers":
-            return {"op": "hashers", "size": case["size"], "P": case["P"]}
+            return {"op": "hashers", "size": case["size"], "P": case["P"], "block": case.get("block", B)}
         return {"creator": case["creator"], "version": case["version"], "align": bool(case.get("align")),
                 "P": case["P"], "tree": case["tree"],
                 "status": rec.get("status") if rec else None,
@@ -203,6 +237,9 @@ class C01(CreateProp):
             creator = "TorrentFile" if n % 4 else "cli"
             out.append({"creator": creator, "version": 1, "P": P, "tree": mk_tree(sh, sizes), "clauses": cl,
                         "progress": (0, 0, 1, 2)[n % 4] if n % 5 == 0 else 0})
+        # the model-checked universe replayed into the real Hasher
+        out += hasher1_universe("MC_HasherV1.cfg" if tier != "thorough" else "MC_HasherV1_4files.cfg",
+                                ["C01.scaled", "M01.scaled"], rng, None if tier == "thorough" else 1500, aligns=(False,))
         return out
 
 
@@ -230,6 +267,8 @@ class C15(CreateProp):
             creator = "TorrentFile" if n % 4 else "cli"
             out.append({"creator": creator, "version": 1, "align": True, "P": P,
                         "tree": mk_tree(sh, sizes), "clauses": cl})
+        out += hasher1_universe("MC_HasherV1.cfg" if tier != "thorough" else "MC_HasherV1_4files.cfg",
+                                ["C15.scaled", "M01.scaled"], rng, None if tier == "thorough" else 1500, aligns=(True,))
         return out
 
 
@@ -260,6 +299,7 @@ class C02(CreateProp):
             creator, v = combos[n % len(combos)]
             out.append({"creator": creator, "version": v, "P": P, "tree": mk_tree(sh, sizes), "clauses": cl,
                         "progress": (1, 2)[n % 2] if n % 7 == 0 else 0})
+        out += hashers_scaled(["C02.hashers"], tier)
         return out
 
 
@@ -315,6 +355,7 @@ class C10(CreateProp):
                 if s > 0:
                     out.append({"op": "hashers", "size": s, "P": P, "group": "none",
                                 "clauses": ["C10.hashers", "C10.steps", "M10.impl"]})
+        out += hashers_scaled(["C10.hashers", "C10.steps", "M10.impl"], tier)
         return out
 
     def signature(self, case, rec, clause):
